@@ -107,6 +107,12 @@ seed={
 'C19-e-1':('exit status = number of parse errors (0 at 256)',False,'sources with exactly 256 syntax errors'),
 'C19-e-2':('CLI skips `execute` for files without stanzas (globals never checked)',False,'stanza-less DSL files with declared globals'),
 'C19-e-3':('CLI pre-check of declared globals ignores defaults',True,''),
+'C12-f-1':('lazy: process-wide atomic nesting counter for value evaluation, limit 4096 (depths of concurrent executions add up)',False,'sub-check (c): several workers deep inside chains of > 1000 lazy values at the same time'),
+'C12-f-2':('per-`scan` memo behind an `RwLock`; read-to-write upgrade with a stale index (cross-talk between threads)',True,''),
+'C12-f-3':('`print` holds the stderr lock while its arguments (caller functions, polls) are evaluated',False,'— not caught, and deliberately so: executions are serialised but every result equals the isolated run; it fails only for callers whose callbacks wait for another execution, which the quantifier does not include. Another sub-agent supplied the same mechanism as a *benign* change (benign/agent-f3-2), which must not alarm'),
+'C12-f-4':('`scan` loops give up after 1 s of monotonic time (`Instant`)',True,''),
+'C12-f-5':('lazy: final sweep forces a `HashSet` of unforced thunks (which failing value is reported depends on hash order)',True,''),
+'C12-f-6':('lazy: stack-usage guard measured from the highest stack address ever seen on the thread',False,'caller stack depth as an environment dimension (steps of a history started up to 3 MiB deeper)'),
 'C19-a-1':('`--output` file opened without truncation',True,''),
 'C19-a-2':('parse-error discovery skips MISSING anonymous tokens',False,'MISSING-token-only syntax faults in sources'),
 'C19-b-1':('`--global` values split at commas',False,'global values with commas, option-like and quoted values'),
@@ -123,7 +129,7 @@ for k in sorted(mut):
 n=len(seed); first=sum(1 for v in seed.values() if v[1]); now=sum(1 for k in seed if status.get(f'seeded/{k}/patch.diff')=='caught')
 text=f'''### 10.3 Seeded changes (written by independent sub-agents) and my own mutants
 
-{n} changes were written in five waves by sub-agents that were given only the text of one
+{n} changes were written in six waves by sub-agents that were given only the text of one
 property and a scratch worktree (later waves: also one-line descriptions of the
 ideas already explored and a focus area, to force different mechanisms).
 Every change compiles and passes the 162 tests + doctest; each has a demonstration that fails
@@ -135,21 +141,27 @@ change arrived; "now" is `./sensitivity.sh` on the final checks (quick tier, def
 
 {first} of {n} were caught at the first attempt; {now-first} more after the checks were
 strengthened as listed (workload and oracle extensions, new seams and environment
-dimensions), without loosening anything; {n-now} remains missed.
+dimensions), without loosening anything; {n-now} remain missed (C12-b-2: blind spot, 10.4; C12-f-3: see its row).
 
 My own mutants (`/verif/mutants/`, all compile and pass the test-suite; the CLI ones
 trivially, since the suite does not build the CLI):
 
 '''+"\n".join(out2)+'''
 
-**Specificity.** 24 property-preserving changes (`/verif/benign/`: 9 of mine, 15 written by
-three further sub-agents who were asked for legitimate refactorings that change what the
+**Specificity.** 39 property-preserving changes (`/verif/benign/`: 9 of mine, 30 written by
+six further sub-agents who were asked for legitimate refactorings that change what the
 properties do not constrain — renamed, added and moved polls; reworded errors and fuller
 context chains; other deterministic choices among simultaneous errors; BTreeMaps for
 HashMaps; lazy matching stanza by stanza (other node numbering); fail-fast duplicate
 detection; conflicting assignments that no longer overwrite; `UndefinedEdge` before value
 evaluation; compact JSON; distinct CLI exit codes, other stderr wording, source checked before
-the DSL file) were run through all six checks with `./specificity.sh`: no alarm.
+the DSL file; edges stored in creation order; and, for the synchronisation seams, *correct*
+shared state: a process-wide regex cache filled under one lock, per-file statistics behind a
+`Mutex` that is **held while caller functions and the flag are called**, `OnceLock` tables,
+thread-local leased cursors and buffers, clock reads and atomic counters used for log lines
+only) were run through all six checks with `./specificity.sh`. One alarm was raised, by
+`agent-g2-4` (edges in creation order), and was a false alarm of the C09 oracle; it was
+corrected (10.2, item 7). Final run: no alarm.
 
 '''
 s=open('/verif/DESIGN.md').read()
